@@ -124,7 +124,8 @@ Definition blocks_sim (a b : list blk) : bool :=
 
 Inductive case :=
 | CNode (P : params) (self : N) (tbl : list msg) (steps : list (xev * obs)) (signed : list blk) (v d e u : bool)
-| CBlocks (blocks : list blk) (q : bool).
+| CBlocks (blocks : list blk) (q : bool)
+| CGcc (c n : Z) (msgs : list commit_msg) (p : N) (empty : bool).
 
 Definition case_ok (k : case) : bool :=
   match k with
@@ -139,6 +140,9 @@ Definition case_ok (k : case) : bool :=
           && eqb (single_voteb nd) u
       end
   | CBlocks blocks q => eqb (no_equiv_blocks blocks) q
+  | CGcc c n msgs p e =>
+      (* getCommitConsensus on the accepted commit messages of a node, in order: per-proposer tally *)
+      let r := get_commit_consensus msgs c n in (fst r =? p) && eqb (snd r) e
   end.
 
 Definition mismatches := mism case_ok.
